@@ -21,4 +21,11 @@ def findings(fn_node):
         lit = "".join(v.value for v in js.values if isinstance(v, ast.Constant) and isinstance(v.value, str))
         if _DIRECTIVE.search(lit) and any(isinstance(v, ast.FormattedValue) for v in js.values):
             out.append((n, [ast.unparse(v.value) for v in js.values if isinstance(v, ast.FormattedValue)]))
+    for n in ast.walk(fn_node):
+        # f"... %s {data}" % args : the same mistake with the % operator applied in place
+        if isinstance(n, ast.BinOp) and isinstance(n.op, ast.Mod) and isinstance(n.left, ast.JoinedStr):
+            js = n.left
+            lit = "".join(v.value for v in js.values if isinstance(v, ast.Constant) and isinstance(v.value, str))
+            if _DIRECTIVE.search(lit) and any(isinstance(v, ast.FormattedValue) for v in js.values):
+                out.append((n, [ast.unparse(v.value) for v in js.values if isinstance(v, ast.FormattedValue)]))
     return out
